@@ -406,6 +406,8 @@ static void cmdDtype(const Case& c) {
         for (size_t i = 0; i < c.steps.size(); i++) {
             const Step& st = c.steps[i];
             std::string k = st.opt.count("k") ? st.opt.find("k")->second : "";
+            // step marker, flushed before the step runs: a crash is attributable to one step, the rest of the case is re-run
+            gOut.line("S\t" + itos((long long)i)); gOut.flush();
             try {
                 if (k == "type") defineType(E, st);
                 else if (k == "v") valueStep(E, st);
